@@ -13,7 +13,7 @@ From Soy Require Import Proofs.MsgIdProofs.
 From Soy Require Import Model.Bytes Model.Outcome Model.Num Model.Values Model.Ast Model.MsgId
   Model.Escape Model.Interp Model.MsgParts Spec.MsgCat Proofs.MsgPartsProofs Proofs.InterpRelProofs Proofs.InterpPosProofs Proofs.MsgCatProofs
   Proofs.MsgPluralProofs Model.PoFile Proofs.PoFileProofs Model.JsGen Proofs.MsgJsProofs
-  Model.PoEntry Proofs.PoEntryProofs Model.PoBundle Proofs.PoBundleProofs Model.PoHeader Proofs.PoHeaderProofs Model.MiniJS Proofs.InterpGuard Proofs.MiniJSProofs Proofs.MiniJSPrint Proofs.MiniJSCtl Proofs.MiniJSGo Proofs.MiniJSStmt Proofs.MiniJSGen Proofs.MiniJSSim Proofs.MsgWalkEq Proofs.MsgThreeSided.
+  Model.PoEntry Proofs.PoEntryProofs Model.PoBundle Proofs.PoBundleProofs Model.PoHeader Proofs.PoHeaderProofs Model.MiniJS Proofs.InterpGuard Proofs.MiniJSProofs Proofs.MiniJSPrint Proofs.MiniJSCtl Proofs.MiniJSGo Proofs.MiniJSStmt Proofs.MiniJSGen Proofs.MiniJSSim Proofs.MsgWalkEq Proofs.MsgWalkEqCalls Proofs.MsgThreeSided.
 Open Scope N_scope.
 
 (* ------------------------------------------------------------------ *)
@@ -702,6 +702,59 @@ Theorem C11_walk_b_is_walk : forall cf plural_index bd fuel n, msgfree n = true 
   forall st, walk_b cf plural_index bd fuel n st = walk cf fuel n st.
 Proof. exact walk_b_is_walk. Qed.
 Print Assumptions C11_walk_b_is_walk.
+
+(* ... and on code without {msg} that CALLS templates, when no template of the registry contains a {msg} either
+   ([msgfree_c] = no message node in the tree, calls allowed; [reg_msgfree] = every template of the registry is such) *)
+Theorem C11_walk_b_is_walk_calls : forall cf, reg_msgfree cf -> forall plural_index bd fuel n, msgfree_c n = true ->
+  forall st, walk_b cf plural_index bd fuel n st = walk cf fuel n st.
+Proof. exact walk_b_is_walk_calls. Qed.
+Print Assumptions C11_walk_b_is_walk_calls.
+
+(* CALL SLOTS, Go side: a flat message with the catalogue entry tr whose slots resolve to message-free code -- prints,
+   html tags and {call}s, over a registry without {msg} -- is rendered by soyhtml's evalMsg (walker with the bundle)
+   exactly as the PLAIN walker of Model/Interp.v runs the translation's items: text segments where the translation puts
+   them, each slot by walking the first placeholder of the message that carries its name (for a {call}: data, params,
+   the callee's template, any depth of further calls) -- same result, same state, every fuel.  So every theorem about
+   [walk] (C02's call semantics, C03's escaping, C12's writes) speaks about the slots of a translated message.
+   The JavaScript side of call slots waits for C04's call stage (see the claim). *)
+Theorem C11_translation_call_slots : forall cf, reg_msgfree cf -> forall plural_index bd fuel mp id body tr,
+  forallb flat_node body = true -> items_named body tr -> parts_clean (map item_part tr) ->
+  bundle_message bd id = Some (new_message [] [msgstr_of tr]) ->
+  slots_msgfree (map (resolve body) tr) ->
+  forall st, eval_msg plural_index bd (walk_b cf plural_index bd fuel) mp id body st
+             = run_items (walk cf fuel) (map (resolve body) tr) st.
+Proof. exact translation_plain_walker. Qed.
+Print Assumptions C11_translation_call_slots.
+
+(* non-vacuity: "A {XXX} B{X}" where XXX is {call ns.greet data="all"/} and ns.greet is "Hi {$x}!", translated to
+   "{X}{XXX} -- " with x = 7: the output is "7Hi 7! -- " *)
+Definition exc_greet : template :=
+  {| t_name := b "ns.greet";
+     t_node := NTemplate 0 (b "ns.greet") (NList 0 [NRawText 1 (b "Hi "); NPrint 2 (NDataRef 2 (b "x") []) []; NRawText 3 (b "!")]) 0 false;
+     t_ns_name := b "ns"; t_ns_autoescape := 0; t_params := [(b "x", false)]; t_file := b "f.soy" |}.
+Definition exc_cf : cfg :=
+  {| c_reg := {| r_templates := [exc_greet]; r_sources := []; r_files := [] |}; c_ij := None; c_oblig := []; c_msgs := None |}.
+Definition exc_call : node := NCall 2 (b "ns.greet") true None [].
+Definition exc_px : node := NPrint 4 (NDataRef 4 (b "x") []) [].
+Definition exc_body : list node :=
+  [NRawText 1 (b "A "); NMsgPlaceholder 2 (b "XXX") exc_call; NRawText 3 (b " B"); NMsgPlaceholder 4 (b "X") exc_px].
+Definition exc_tr : list titem := [TPh 4 (b "X") exc_px; TPh 2 (b "XXX") exc_call; TText (b " -- ")].
+Definition exc_bd : bundle := [(9, new_message [] [msgstr_of exc_tr])].
+Definition exc_st : mstate := init_state (sc_enter (new_scope 1 [(b "x", VInt 7)])) 0 (b "ns.main") None None 100.
+Example ex_call_slots :
+  reg_msgfree exc_cf /\ forallb flat_node exc_body = true /\ msgstr_of exc_tr = b "{X}{XXX} -- "
+  /\ bundle_message exc_bd 9 = Some (new_message [] [msgstr_of exc_tr])
+  /\ slots_msgfree (map (resolve exc_body) exc_tr)
+  /\ items_named exc_body exc_tr /\ parts_clean (map item_part exc_tr)
+  /\ (let '(r, st) := eval_msg plural_neq1 exc_bd (walk_b exc_cf plural_neq1 exc_bd 10) 0 9 exc_body exc_st in
+      (r, concat_b (rev (out st)))) = (Ok tt, b "7Hi 7! -- ").
+Proof.
+  split; [intros callee [<-|[]]; reflexivity|]. split; [reflexivity|]. split; [vm_compute; reflexivity|].
+  split; [reflexivity|]. split; [repeat constructor|].
+  split.
+  { intros p n bd H. cbn in H. destruct H as [H|[H|[H|[]]]]; try discriminate; injection H as <- <- <-; cbn; eauto 8. }
+  split; [vm_compute; repeat split; discriminate|]. vm_compute. reflexivity.
+Qed.
 
 (* A flat message with the catalogue entry tr whose slots all resolve to core prints ({print e|ds} over C04's
    expression subset) or html tags of the message ([ss] = the items as statements of C04's subset: SRaw t for a
